@@ -507,7 +507,7 @@ PROPS = {
         ],
     },
     'C10': {
-        'v_units': ['errexit', 'condframe', 'assignstatus', 'simplecmd'],
+        'v_units': ['errexit', 'condframe', 'assignstatus', 'simplecmd', 'errhandle'],
         'k_units': ['errexit'],
         'level': 'other',
         'explanation': (
@@ -529,7 +529,10 @@ PROPS = {
             'elif alike - in exempt contexts and runs the chosen branch with the caller\'s own stack. Unit assignstatus (Verus): perform_assignments (yash-semantics/src/assign.rs) performs the '
             'assignments in order up to the first failure and returns the exit status of the LAST command substitution performed in any of them '
             '(XCU 2.9.1: `x=$(false) y=1` fails), None if there was none. Unit simplecmd: SimpleCommand::execute consults apply_errexit exactly '
-            'once after every simple command whose executor did not divert, and not after a failed expansion. NOT decided: which other commands consult '
+            'once after every simple command whose executor did not divert, and not after a failed expansion. Unit errhandle (Verus, yash-semantics/src/handle.rs): a syntax error (and a read error in a dot script) interrupts with status 2, '
+            'another read error with 128; an expansion error ends the shell (Exit, status 2) where errexit applies and interrupts with status 2 '
+            'otherwise, an interrupted expansion hands on its interrupt; a redirection error only sets $? to 2 and execution continues; each error '
+            'is reported exactly once. NOT decided: which other commands consult '
             'apply_errexit, and the consequences-of-shell-errors table (special built-in errors, redirection errors, assignment errors, '
             'expansion errors): all of that is async interpreter code outside both tools.'),
         'trusted_base': ['Verus 0.2026.09.13 + Z3', 'Kani 0.68.0 + CBMC 6.11', '/verif/tools/vextract.py, /verif/tools/kunit.py'],
@@ -537,6 +540,7 @@ PROPS = {
             'struct Env is reduced to the fields the functions read (exit_status, options, stack) in the Verus unit; OptionSet::get is assumed to answer On iff the option is in the set',
             'assumed contract of <[T]>::contains (membership under the specified equality); derived PartialEq of Frame and State is structural',
             'Kani: RandomState::new is stubbed with fixed keys (std asks the OS for random hash keys; no hash table is consulted by the functions under contract)',
+            'unit errhandle: the error types are reduced to what the handlers inspect; printing the report is an opaque call; Env reduced to the exit status and a flag for errexit_is_applicable (unit errexit); ExitStatus::ERROR = 2, READ_ERROR = 128',
             'unit assignstatus: performing one assignment is an opaque call recorded in a ghost log; Option::or and Option::as_deref_mut (helper) have assumed contracts; await points dropped',
             'unit condframe: RAII of the frame guard is ASSUMED as a whole in the contract of Env::push_frame (external_body: while the guard lives the frame is on top; when it goes away one frame has been popped and the rest is as the guard left it) - Verus does not model destructors; what is verified is the destructor body (pops one frame) and the identical two-line body of Stack::push; running commands (List::execute, execute_commands_in_pipeline) is an opaque call that records (what, stack, status before/after, result) in a ghost log; Env reduced to exit_status / options / stack / log; `slice.iter().peekable()` is a hand-written index model; `&mut guard` (DerefMut) is checked as `guard.env`; an explicit drop(guard) is checked as the end of the guard\'s life; `?` on ControlFlow through assumed contracts; await points dropped; the option test of noexec is an assumed two-option model',
         ],
